@@ -5,8 +5,11 @@
            (h: the hypotheses wf, raw_wf, range_ok, order_ok of the theorems evaluated by the extracted
            checkers on the state the collection runs in, 1 = holds) or "M a=<ids>";
            OUTOFFUEL / CRASH end the transcript
-   spec:   per observation  "G r=<ids of registered nodes reachable>" (executable closure
-           reach_exec, nothing is ever collected on this side) *)
+   spec:   per observation  "G r=<ids of registered nodes reachable> k=<ids that must be kept> h=<wxyz>"
+           nothing is ever collected on this side; r = executable closure reach_exec;
+           k = marks of the extracted `mark true true` on that never-collected heap, which by theorem
+           mark_exact are exactly registered /\ (root-flagged \/ reachable), provided the hypotheses
+           hold (h = the extracted checkers on that state) *)
 let addr id = n_of_int (4096 + 16 * id)
 let id_of_addr (a : n) = (int_of_n a - 4096) / 16
 
@@ -81,6 +84,14 @@ let run mode line =
                  | Some tn when not (is_reg tn.k) -> max acc (1 + rank t) | _ -> acc) 0 nd.items
            else 0 in
          Hashtbl.replace rank_memo id r; r) in
+  let must_keep () =
+    let s = gm_full_state !sheap !sreg (List.rev !sorder) (gm_tls (tls_vals ())) (stack_words ()) in
+    let (((h1, h2), h3), h4) = gm_hyp s (fun a -> nat_of_int (rank (id_of_addr a))) in
+    let b x = if x then "1" else "0" in
+    let k = match gm_mark true true s with
+      | Ok m -> ids_s (List.filter (fun i -> gm_marked m (addr i)) (node_ids ()))
+      | Crash -> "CRASH" | OutOfFuel -> "OUTOFFUEL" in
+    " k=" ^ k ^ " h=" ^ b h1 ^ b h2 ^ b h3 ^ b h4 in
   let ints s = List.map int_of_string (List.filter (fun x -> x <> "")
                  (String.split_on_char ' ' (String.map (fun c -> if (c >= '0' && c <= '9') then c else ' ') s))) in
   (try
@@ -154,7 +165,7 @@ let run mode line =
             end else do_step (EDel (addr id))
           end
         | 'G' | 'H' ->
-          if spec then obs (String.make 1 tok.[0]) (" r=" ^ ids_s (reach ()))
+          if spec then obs (String.make 1 tok.[0]) (" r=" ^ ids_s (reach ()) ^ must_keep ())
           else begin
             let m = match gm_mark tr mg !st with
               | Ok m -> m | Crash -> raise (Stop "CRASH") | OutOfFuel -> raise (Stop "OUTOFFUEL") in
@@ -166,7 +177,7 @@ let run mode line =
           end
         | 'M' ->
           let n = List.hd (ints rest) in
-          if spec then obs "M" (" r=" ^ ids_s (reach ()))
+          if spec then obs "M" (" r=" ^ ids_s (reach ()) ^ must_keep ())
           else begin
             for _ = 1 to n do
               incr garbage;
